@@ -488,9 +488,21 @@ def pipeline(tier, seed, workdir, vh, report, recs=None, want=None, sems=None, o
                 pairs.append((r.name, k, sem, images[key], sem in SEMS, j, variant))
     results = {}
     nproc = max(1, min(NJOBS, len(jobs)))
+    early = bool(os.environ.get("C16_EARLY_STOP"))  # development aid for mutant runs: stop recovering at the first decisive violation
+    if early:
+        rng.shuffle(jobs)
+    img_pairs = {}
+    for pr in pairs:
+        img_pairs.setdefault(pr[3], []).append(pr)
+    byname0 = {r.name: r for r in recordings}
     with multiprocessing.Pool(nproc) as pool:
         for res in pool.imap_unordered(_recover, jobs, chunksize=1):
             results[res["img"]] = res
+            if early and any(pr[4] and judge(byname0[pr[0]], pr[1], res) for pr in img_pairs.get(res["img"], [])):
+                pool.terminate()
+                break
+    if early:
+        pairs = [pr for pr in pairs if pr[3] in results]
     # judge
     byname = {r.name: r for r in recordings}
     harness_errors = []
